@@ -63,6 +63,7 @@ def h_decode(data: bytes) -> bool:
             exp = data.decode("utf-8")
         except UnicodeDecodeError:
             exp = data.decode("latin-1")
+        exp = exp.replace("\r\n", "\n").replace("\r", "\n")      # text mode: universal newlines (the in-memory FS applies them like the real open())
         ok = text == exp and len(cr) == 1
     finally:
         _restore(saved)
